@@ -3,8 +3,12 @@ from props import tu, run, FCO, NONULL
 _SRC = "harness/c18_toolbox_colour.cpp"
 _DEPS = ["harness/c09_cube.hpp"]
 # cases per part: 0 = hsv+hsl (4x16 slabs + 2 grids + 2 hue-periodic), 1 = xyz+lab (4x16), 2 = ycbcr 601/709 (4x16) +
-# cmyka (16+1) + gray_alpha (7) + gray->rgba (5) + luminance (1)
-_CASES = {0: 68, 1: 64, 2: 94}
+# cmyka (16+1) + luminance (1)
+_CASES = {0: 68, 1: 64, 2: 82}
+# gray -> rgba and gray_alpha -> rgba into every destination (harness/c18_gray_rgba.cpp): part 0 = 6 gray sources x 12
+# destinations + 1 record; part 1 = 4 gray_alpha sources x (12 + 5 packed / bit-aligned destinations)
+_GSRC = "harness/c18_gray_rgba.cpp"
+_GCASES = {0: 73, 1: 68}
 
 CFG = dict(
     level="exploration",
@@ -30,16 +34,26 @@ CFG = dict(
                        "thorough": "all 2^24 rgb8 pixels per colour space in both the native and the ASan/UBSan build"},
     types=["rgb8_pixel_t", "bgr8_pixel_t", "hsv32f_pixel_t", "hsl32f_pixel_t", "xyz32f_pixel_t", "lab32f_pixel_t",
            "ycbcr_601_8_pixel_t", "ycbcr_709_8_pixel_t", "cmyk8_pixel_t", "cmyka8/16/32f_pixel_t", "rgba8/16/32f_pixel_t",
-           "gray_alpha8/16_pixel_t", "gray8/16_pixel_t", "pixel<double,rgb_layout_t>", "pixel<double,gray_layout_t>"],
+           "gray_alpha8/16/32f/8s_pixel_t", "gray8/16/32/32f/8s/16s_pixel_t", "rgba8/16/32/32f/8s/16s, bgra/argb/abgr 8 and 32f",
+           "packed rgba5551/rgba4444/argb1555, bit-aligned rgba5551/rgba4444 (gray_alpha sources)", "pixel<double,rgb_layout_t>", "pixel<double,gray_layout_t>"],
     assumptions=["round-trip tolerance fixed per space from the complete 2^24 calibration: hsv, hsl, xyz 0; lab 1; ycbcr_601 3; ycbcr_709 3; cmyk/cmyka leg 1",
                  "ranges: h,s,v,l in [0,1] exactly; xyz between 0 and the D65 white point; L* in [0,100]; a*, b* finite",
                  "no toolbox converter to cmyka exists: the leg is rgb8 -> cmyk8 (core) -> cmyka8(alpha=max) -> rgba8 (toolbox)",
                  "what cmyka -> rgba does with a non-opaque alpha is not stated by the property: recorded as an observation only",
                  "hue 1 is compared with hue 0 for hsv and hsl on an (s,v|l) grid; hue > 1 and hue < 0 are outside the documented range and not generated",
+                 "gray -> rgba: alpha must equal the maximum of the destination's alpha channel exactly (hand-written table per channel type and channel_traits<>::max_value()); gray_alpha -> rgba: alpha == channel_convert(source alpha); colour channels == channel_convert(gray); every channel in range and within one unit of the exact rescaling",
+                 "gray -> packed / bit-aligned rgba does not instantiate (gray_to_rgba.hpp uses channel_type<P2>): recorded as an observation, not claimed",
                  "alpha_gray*_pixel_t is not exercised (it does not instantiate get_color: declared over a layout instead of a colour space)"],
     tus=[tu("c18_native%d" % k, _SRC, "native", extra=["-DC18_PART=%d" % k], deps=_DEPS) for k in range(3)]
-        + [tu("c18_asan%d" % k, _SRC, "asan", extra=FCO + ["-DC18_PART=%d" % k], deps=_DEPS) for k in range(3)],
+        + [tu("c18_asan%d" % k, _SRC, "asan", extra=FCO + ["-DC18_PART=%d" % k], deps=_DEPS) for k in range(3)]
+        + [tu("c18_gray_native%d" % k, _GSRC, "native", extra=["-DC18G_PART=%d" % k]) for k in (0, 1)]
+        + [tu("c18_gray_asan%d" % k, _GSRC, "asan", extra=FCO + ["-DC18G_PART=%d" % k]) for k in (0, 1)],
     runs=[run("c18_native%d" % k, shards=8, min_cases={"quick": _CASES[k], "thorough": _CASES[k]}) for k in range(3)]
-        + [run("c18_asan%d" % k, shards=8, min_cases={"quick": _CASES[k], "thorough": _CASES[k]}, secondary=True) for k in range(3)],
-    require_obs=["rt.hsv.full-slab", "rt.hsl.full-slab", "rt.xyz.full-slab", "rt.ycbcr601.full-slab", "cmyka.non-opaque-alpha-*"],
+        + [run("c18_asan%d" % k, shards=8, min_cases={"quick": _CASES[k], "thorough": _CASES[k]}, secondary=True) for k in range(3)]
+        + [run("c18_gray_native%d" % k, shards=4, min_cases={"quick": _GCASES[k], "thorough": _GCASES[k]}) for k in (0, 1)]
+        + [run("c18_gray_asan%d" % k, shards=8, min_cases={"quick": _GCASES[k], "thorough": _GCASES[k]}, secondary=True) for k in (0, 1)],
+    require_obs=["gray-to-rgba.dst.rgba32f", "gray-to-rgba.dst.abgr32f", "gray-to-rgba.dst.rgba32", "gray-to-rgba.dst.rgba16s",
+                 "gray-alpha.dst.rgba32f", "gray-alpha.dst.rgba5551", "gray-alpha.dst.bitaligned-rgba4444",
+                 "gray-to-rgba.not-instantiable.packed-and-bit-aligned-rgba",
+                 "rt.hsv.full-slab", "rt.hsl.full-slab", "rt.xyz.full-slab", "rt.ycbcr601.full-slab", "cmyka.non-opaque-alpha-*"],
 )
